@@ -1,7 +1,7 @@
 """Sidecar contracts for functions of /repo (never a copy of the code: pre/post/invariants only)."""
 import importlib
 
-MODULES = ["core_hypergraph", "core_dihypergraph", "utils", "core_simplicial", "freeze", "stats", "algorithms", "derived", "convert", "generators"]
+MODULES = ["core_hypergraph", "core_dihypergraph", "utils", "core_simplicial", "freeze", "stats", "algorithms", "derived", "convert", "generators", "views"]
 
 
 def load_all():
